@@ -42,7 +42,10 @@ CONSTANTS
     ValSel,        \* value-class programs: option groups (indices into VNames; {} = not this shape)
     ShapeSel,      \* value-class programs: shapes 1..6
     GenSel,        \* generated-line programs: which block of generated lines ({} = free programs)
-    PreSel         \* generated-line programs: directive put before the line (0 = none)
+    PreSel,        \* generated-line programs: directive put before the line (0 = none)
+    CanonSel,      \* generated-line programs: canonicalisation settings put first (0 = none)
+    ExecAlways,    \* sensitivity: "exec" is run although an earlier criterion failed (WRONG)
+    FinalShortCut  \* sensitivity: "final" only counts if the criteria before it hold (WRONG)
 
 -----------------------------------------------------------------------------
 Strs(A, lo, hi) == UNION {[1..n -> A] : n \in lo..hi}
@@ -83,7 +86,8 @@ TgtMenu == <<
     [host |-> ha, user |-> ua,   mode |-> "plain"],     \* 3
     [host |-> hb, user |-> ub,   mode |-> "plain"],     \* 4
     [host |-> ha, user |-> <<>>, mode |-> "canon"],     \* 5
-    [host |-> hb, user |-> ua,   mode |-> "canon"]      \* 6
+    [host |-> hb, user |-> ua,   mode |-> "canon"],     \* 6
+    [host |-> <<"h", ".", "a">>, user |-> <<>>, mode |-> "plain"]   \* 7 (a dot: CanonicalizeMaxDots)
 >>
 
 -----------------------------------------------------------------------------
@@ -299,14 +303,37 @@ TypedMenu == <<
     TV("HostKey", "app", <<"/hk/1">>, Str("/hk/1")),
     TV("HostKey", "app", <<"/hk/2">>, Str("/hk/2")),
     TV("HostKey", "app", <<"none">>, NONE),
-    OptD("AuthorizedKeysFile", <<cnone>>, 1)
+    OptD("AuthorizedKeysFile", <<cnone>>, 1),
+    \* ---- host name canonicalisation (client)
+    TV("CanonicalDomains", "set", <<"c">>, <<"l", "c">>),
+    TV("CanonicalDomains", "set", <<"d c">>, <<"l", "d", "c">>),
+    TV("CanonicalDomains", "set", <<"d">>, <<"l", "d">>),
+    TV("CanonicalizeMaxDots", "set", <<"0">>, <<"i", "0">>),
+    TV("CanonicalizeFallbackLocal", "set", <<"no">>, <<"b", "0">>)
 >>
 IsNoneText(v) == Len(v) = 4 /\ v[1] \in {"n", "N"} /\ v[2] \in {"o", "O"} /\ v[3] \in {"n", "N"}
                             /\ v[4] \in {"e", "E"}
 EMPTYL == <<<<"@EMPTY@">>>>        \* a list option set to "none": the empty list (not "unset")
 
-GenBlocks == <<Gen2(GenC), Gen3(GenT), GenHost, Gen2(GenS), TypedMenu>>
+(* Lines where the POSITION of final / canonical / all / exec among the criteria matters: *)
+(* what the parser records while walking a line (a final pass is wanted; a command is     *)
+(* run) next to criteria that are false in the first pass and true in the second          *)
+(* (host *.c once the name is canonical), true then false (host ha), always true / false. *)
+GenF == <<
+    Cr(FALSE, "final", <<>>),
+    Cr(FALSE, "canonical", <<>>),
+    Cr(FALSE, "all", <<>>),
+    Cr(FALSE, "host", <<P(FALSE, ha)>>),
+    Cr(FALSE, "host", <<P(FALSE, <<"*", ".", "c">>)>>),
+    Cr(FALSE, "host", <<P(FALSE, <<"h", "*">>)>>),
+    Cr(FALSE, "user", <<P(FALSE, ua)>>),
+    Cr(FALSE, "exect", <<>>),
+    Cr(FALSE, "execf", <<>>)
+>>
+GenFT == <<GenF[1], GenF[5], GenF[8]>>
+GenBlocks == <<Gen2(GenC), Gen3(GenT), GenHost, Gen2(GenS), TypedMenu, Gen2(GenF), Gen3(GenFT)>>
 DirMenu == StaticMenu \o GenBlocks[1] \o GenBlocks[2] \o GenBlocks[3] \o GenBlocks[4] \o GenBlocks[5]
+                      \o GenBlocks[6] \o GenBlocks[7]
 NDir == Len(DirMenu)
 RECURSIVE BlockStart(_)
 BlockStart(b) == IF b = 1 THEN NStatic ELSE BlockStart(b - 1) + Len(GenBlocks[b - 1])
@@ -344,7 +371,10 @@ DirText(d) ==
       [] d.k = "match" ->
            <<"Match">> \o
            Flat([i \in 1..Len(d.cr) |->
-                   <<" ">> \o (IF d.cr[i].neg THEN <<"!">> ELSE <<>>) \o <<d.cr[i].c>> \o
+                   <<" ">> \o (IF d.cr[i].neg THEN <<"!">> ELSE <<>>) \o
+                   (CASE d.cr[i].c = "exect" -> <<"exec \"echo t | tee -a @XLOG@ > /dev/null\"">>
+                      [] d.cr[i].c = "execf" -> <<"exec \"echo f | tee -a @XLOG@ > /dev/null; false\"">>
+                      [] OTHER -> <<d.cr[i].c>>) \o
                    (IF Arg(d.cr[i].c)
                     THEN <<" ">> \o Join([j \in 1..Len(d.cr[i].pl) |-> PatChars(d.cr[i].pl[j])], <<",">>)
                     ELSE <<>>)])
@@ -386,6 +416,7 @@ HasErr(s) == \E i \in 1..Len(s) : s[i] = ERR
 (* interpreter *)
 St0(user) == [m |-> TRUE, port |-> <<>>, user |-> user, hostname |-> <<>>, tag |-> <<>>,
               idf |-> <<>>, env |-> <<>>, ukh |-> <<>>, akf |-> <<>>, fin |-> FALSE,
+              ex |-> <<>>,         \* ex: the "Match exec" commands run so far, in order
               t |-> <<>>]          \* t: <<name, denotation>> of the typed options, in order of first use
 
 HostNow(st, cx) == IF st.hostname # <<>> THEN st.hostname ELSE cx.host
@@ -406,6 +437,8 @@ CritVal(cr, st, cx) ==
       [] cr.c = "user"         -> NameListMatch(cr.pl, IF cx.srv THEN cx.ruser ELSE UserNow(st, cx))
       [] cr.c = "localuser"    -> NameListMatch(cr.pl, LU)
       [] cr.c = "tagged"       -> NameListMatch(cr.pl, st.tag)
+      [] cr.c = "exect"        -> TRUE
+      [] cr.c = "execf"        -> FALSE
       [] cr.c = "address"      -> NameListMatch(cr.pl, <<"1", "0", ".", "0", ".", "0", ".", "4">>)
 
 (* criteria are taken left to right, as the code does *)
@@ -418,6 +451,20 @@ CondJ(crs, matching, seenNeg, st, cx) ==
          IN  CondJ(Tail(crs), matching /\ (r # neg), seenNeg \/ Head(crs).neg, st, cx)
 CondI(crs, matching, st, cx) == CondJ(crs, matching, FALSE, st, cx)
 HasFinal(crs) == \E i \in 1..Len(crs) : crs[i].c = "final"
+(* what walking the line records, besides its truth: *)
+Before(crs, k, st, cx) == \A j \in 1..(k - 1) : CritVal(crs[j], st, cx) # crs[j].neg
+(* a final pass is wanted as soon as the word appears, wherever it stands *)
+FinalSeen(crs, st, cx) ==
+    IF FinalShortCut THEN \E k \in 1..Len(crs) : crs[k].c = "final" /\ Before(crs, k, st, cx)
+    ELSE HasFinal(crs)
+(* a command is run only if every criterion before it held *)
+ExecRun(crs, st, cx) ==
+    LET K == {k \in 1..Len(crs) : crs[k].c \in {"exect", "execf"}
+                                  /\ (ExecAlways \/ Before(crs, k, st, cx))}
+        RECURSIVE Asc(_)
+        Asc(S) == IF S = {} THEN <<>>
+                  ELSE LET m == CHOOSE x \in S : \A y \in S : x <= y IN <<crs[m].c>> \o Asc(S \ {m})
+    IN  Asc(K)
 
 Assign(st, d, cx) ==
     CASE d.n = "Port"     -> IF st.port = <<>> THEN [st EXCEPT !.port = d.v[1]] ELSE st
@@ -463,7 +510,8 @@ RunLines(lines, st, cx, prog) ==
              st2 == IF d.k = "host" THEN [st EXCEPT !.m = NameListMatch(d.pl, cx.host)]
                     ELSE IF d.k = "match"
                          THEN [st EXCEPT !.m = CondI(d.cr, TRUE, st, cx),
-                                         !.fin = @ \/ HasFinal(d.cr)]
+                                         !.fin = @ \/ FinalSeen(d.cr, st, cx),
+                                         !.ex = @ \o ExecRun(d.cr, st, cx)]
                     ELSE IF ~st.m THEN st
                     ELSE IF d.k = "inc"
                          THEN LET files == IF d.f = "A" THEN <<prog.a>>
@@ -497,23 +545,42 @@ Cx(host, canonical, final, flags) ==
 
 Out(st, cx, expanded) ==
     LET s == IF expanded THEN st ELSE ExpandAll(st, cx) IN
-    <<HostNow(s, cx), PortNow(s), UserNow(s, cx), s.idf, s.env, s.ukh, s.tag, s.t>>
+    <<HostNow(s, cx), PortNow(s), UserNow(s, cx), s.idf, s.env, s.ukh, s.tag, s.t, s.ex>>
 
 (* the first pass alone (what SSHClientConfig.load returns) *)
 Eval1(prog, tgt, flags) ==
     LET cx == Cx(tgt.host, FALSE, FALSE, flags)
     IN  Out(Pass(prog, cx, St0(tgt.user)), cx, flags.b)
 
+(* host name canonicalisation as the first pass configured it (connection.py       *)
+(* _canonicalize_host): enabled, some domain, not too many dots, and the first       *)
+(* domain in which the name resolves; the resolver knows <host>.c and nothing in "d" *)
+TGet(st, n) == LET at == {i \in 1..Len(st.t) : st.t[i][1] = n}
+               IN  IF at = {} THEN <<>> ELSE st.t[CHOOSE i \in at : TRUE][2]
+Dots(h) == Cardinality({i \in 1..Len(h) : h[i] = "."})
+CanonBy(st, host) ==
+    LET ch   == TGet(st, "CanonicalizeHostname")
+        doms == TGet(st, "CanonicalDomains")
+        md   == TGet(st, "CanonicalizeMaxDots")
+    IN  IF ch \notin {<<"b", "1">>, Str("always")} \/ Len(doms) < 2 THEN "no"
+        ELSE IF Dots(host) > (IF md = <<"i", "0">> THEN 0 ELSE 1) THEN "no"
+        ELSE IF \E i \in 2..Len(doms) : doms[i] = "c" THEN "yes"
+        ELSE IF TGet(st, "CanonicalizeFallbackLocal") = <<"b", "0">> THEN "err"
+        ELSE "no"
+CANONERR == <<"@CANONERR@">>
+
 (* the whole resolution, as ssh does it: a second pass if the host was *)
 (* canonicalised or a "final" criterion was seen                        *)
 Eval(prog, tgt, flags) ==
     LET cx1 == Cx(tgt.host, FALSE, FALSE, flags)
         s1  == Pass(prog, cx1, St0(tgt.user))
-        canon == tgt.mode = "canon"
+        by  == CanonBy(s1, tgt.host)
+        canon == tgt.mode = "canon" \/ by = "yes"
         cx2 == Cx(IF canon THEN Canon(tgt.host) ELSE tgt.host, canon, s1.fin, flags)
-    IN  IF ~(canon \/ s1.fin) THEN Out(s1, cx1, flags.b)
+    IN  IF tgt.mode # "canon" /\ by = "err" THEN [Out(s1, cx1, flags.b) EXCEPT ![1] = CANONERR]
+        ELSE IF ~(canon \/ s1.fin) THEN Out(s1, cx1, flags.b)
         ELSE Out(Pass(IF flags.a /\ prog.x = "chain" THEN [prog EXCEPT !.main = <<>>] ELSE prog, cx2,
-                      IF flags.a THEN St0(tgt.user)
+                      IF flags.a THEN [St0(tgt.user) EXCEPT !.ex = s1.ex]
                       \* ssh fixes the host name before re-reading the files
                       ELSE [s1 EXCEPT !.m = TRUE,
                                       !.hostname = IF canon THEN cx2.host ELSE HostNow(s1, cx1)]),
@@ -555,7 +622,19 @@ vars == <<kase>>
 (* generated-line programs: [directive before,] generated line, one option line *)
 GenOpt == IF Mode = "cli" THEN 25 ELSE 46
 GenLines == UNION {GenIdx(b) : b \in GenSel}
-GenMains == (IF 0 \in PreSel THEN {<<g, GenOpt>> : g \in GenLines} ELSE {}) \cup
+TIdx(n, txt) == CHOOSE i \in GenIdx(5) : DirMenu[i].n = n /\ DirMenu[i].v = txt
+CanonPre == <<
+    <<TIdx("CanonicalizeHostname", <<"yes">>), TIdx("CanonicalDomains", <<"c">>)>>,            \* 1 ha -> ha.c
+    <<TIdx("CanonicalizeHostname", <<"always">>), TIdx("CanonicalDomains", <<"d c">>)>>,       \* 2 second domain
+    <<TIdx("CanonicalizeHostname", <<"yes">>), TIdx("CanonicalDomains", <<"d">>)>>,            \* 3 not found: local resolver
+    <<TIdx("CanonicalizeHostname", <<"yes">>), TIdx("CanonicalDomains", <<"d">>),
+      TIdx("CanonicalizeFallbackLocal", <<"no">>)>>,                                           \* 4 not found: error
+    <<TIdx("CanonicalizeHostname", <<"yes">>), TIdx("CanonicalDomains", <<"c">>),
+      TIdx("CanonicalizeMaxDots", <<"0">>)>>,                                                  \* 5 dots
+    <<TIdx("CanonicalizeHostname", <<"no">>), TIdx("CanonicalDomains", <<"c">>)>>              \* 6 disabled
+>>
+GenMains == {CanonPre[k] \o <<g, GenOpt>> : k \in CanonSel \ {0}, g \in GenLines} \cup
+            (IF 0 \in PreSel THEN {<<g, GenOpt>> : g \in GenLines} ELSE {}) \cup
             {<<pre, g, GenOpt>> : pre \in PreSel \ {0}, g \in GenLines}
 GenProgs == [main : GenMains, a : {<<>>}, b : {<<>>}, x : {""}]
 FreeProgs == [main : UNION {[1..n -> MainSel] : n \in 1..MaxMain},
@@ -587,6 +666,7 @@ SeqHash(s) == IF s = <<>> THEN 3 ELSE (SeqHash(Tail(s)) * 53 + Head(s)) % 100003
 Keep(p) == (SeqHash(p.main) + 7 * SeqHash(p.a) + 11 * SeqHash(p.b)) % SampleMod = SampleRem
 
 (* canonicalisation is only modelled where the code and ssh use the same names *)
+UsesCanon(p) == \E i \in 1..Len(p.main) : DirMenu[p.main[i]].n = "CanonicalDomains"
 CanonOK(p) ==
     \A i \in 1..Len(p.main) :
         LET d == DirMenu[p.main[i]] IN
@@ -598,7 +678,7 @@ Init ==
     \/ /\ Mode = "cli"
        /\ kase \in [p : Progs, t : TgtSel]
        /\ WellFormed(kase.p) /\ Keep(kase.p)
-       /\ (TgtMenu[kase.t].mode = "canon" => CanonOK(kase.p))
+       /\ ((TgtMenu[kase.t].mode = "canon" \/ UsesCanon(kase.p)) => CanonOK(kase.p))
     \/ /\ Mode = "srv"
        /\ kase \in [p : Progs, t : IF GenSel # {} \/ ValSel # {} THEN TgtSel ELSE 1..Len(SrvUsers)]
        /\ WellFormed(kase.p) /\ Keep(kase.p)
@@ -678,6 +758,30 @@ IncludeInPlace ==
         Eval(kase.p, TgtMenu[kase.t], Rule) =
         Eval([kase.p EXCEPT !.main = Splice(kase.p.main, kase.p.a)], TgtMenu[kase.t], Rule)
 
+(* whether a final pass is wanted does not depend on where "final" stands in its line, *)
+(* nor on the truth of the criteria around it                                           *)
+SecondPassOrderFree ==
+    (Mode = "cli" /\ NoInc(kase.p) /\ kase.p.x = "") =>
+        LET cx == Cx(TgtMenu[kase.t].host, FALSE, FALSE, Rule)
+            st == RunLines(kase.p.main, St0(TgtMenu[kase.t].user), cx, kase.p)
+        IN  st.fin = \E i \in 1..Len(kase.p.main) : HasFinal(DirMenu[kase.p.main[i]].cr)
+
+(* a "Match exec" command is run exactly when all criteria written before it hold *)
+RECURSIVE ExecCount(_, _, _)
+ExecCount(p, i, cx) ==
+    IF i = 0 THEN 0
+    ELSE LET crs == DirMenu[p.main[i]].cr
+             st  == StateAt(p, i - 1, cx)
+         IN  ExecCount(p, i - 1, cx) +
+             Cardinality({k \in 1..Len(crs) :
+                            /\ crs[k].c \in {"exect", "execf"}
+                            /\ \A j \in 1..(k - 1) : CritVal(crs[j], st, cx) # crs[j].neg})
+ExecGuarded ==
+    (Mode = "cli" /\ NoInc(kase.p) /\ kase.p.x = "") =>
+        LET cx == Cx(TgtMenu[kase.t].host, FALSE, FALSE, Rule)
+            st == RunLines(kase.p.main, St0(TgtMenu[kase.t].user), cx, kase.p)
+        IN  Len(st.ex) = ExecCount(kase.p, Len(kase.p.main), cx)
+
 (* the Host/Match lines of an included file do not reach the lines after the Include *)
 IncludeRestores ==
     Mode = "cli" =>
@@ -713,7 +817,7 @@ NeverAltDiffers == ~(Mode = "cli" /\ \E i \in 1..Len(AltFlags) :
 (* emission *)
 B2N(x) == IF x THEN 1 ELSE 0
 HasFinalCrit(p) == \E part \in {p.main, p.a, p.b} : \E i \in 1..Len(part) : HasFinal(DirMenu[part[i]].cr)
-SensA(p, t) == t.mode = "canon" \/ HasFinalCrit(p)
+SensA(p, t) == t.mode = "canon" \/ HasFinalCrit(p) \/ UsesCanon(p)
 SensB(p, t) == UsesInc(p, "A") \/ UsesInc(p, "G") \/ SensA(p, t) \/ p.x = "list"
 SensC(p)    == UsesInc(p, "G")
 SensD(p)    == p.x = "chain"
